@@ -19,7 +19,7 @@ import dataclasses
 import datetime
 import pathlib
 import struct
-from typing import Any, Callable, Dict, List, Optional, Tuple, Union
+from typing import Any, Callable, Dict, Iterable, List, Optional, Tuple, Union
 
 from .model import Program, Func, Module, unparse
 
@@ -96,6 +96,10 @@ class Obj:
 
     def __init__(self, callee: str, args: List[Any], kwargs: Dict[str, Any]):
         self.callee, self.args, self.kwargs = callee, args, kwargs
+        # an interpreted instance of a project class (see Evaluator.instance_modules): its attributes are the ones its
+        # constructor assigned (kept in kwargs); `open` while the constructor runs
+        self.instance = False
+        self.open = False
 
     def __repr__(self) -> str:
         return f"Obj({self.callee})"
@@ -110,8 +114,8 @@ class Digest:
 
 
 class Closure:
-    def __init__(self, func: Func, env: "Env"):
-        self.func, self.env = func, env
+    def __init__(self, func: Func, env: "Env", self_obj: Any = None):
+        self.func, self.env, self.self_obj = func, env, self_obj
 
 
 class ModRef:
@@ -189,8 +193,12 @@ NOT_HANDLED = object()
 
 
 class Evaluator:
-    def __init__(self, prog: Program, oracle: Optional[Oracle] = None, max_paths: int = 512, max_depth: int = 12):
+    def __init__(self, prog: Program, oracle: Optional[Oracle] = None, max_paths: int = 512, max_depth: int = 12,
+                 instance_modules: Iterable[str] = ()):
         self.prog = prog
+        # modules whose plain classes are instantiated abstractly: the constructor is interpreted (straight-line attribute
+        # assignments only), methods are interpreted with the instance as `self`, the attributes never change afterwards
+        self.instance_modules = set(instance_modules)
         self.oracle = oracle
         self.max_paths = max_paths
         self.max_depth = max_depth
@@ -407,7 +415,7 @@ class Evaluator:
             return self._fall(env)
         if isinstance(st, ast.For):
             it = self.eval(st.iter, env, scope)
-            if isinstance(it, Const) and isinstance(it.v, (list, tuple, dict, set, frozenset, str)) or isinstance(it, list):
+            if isinstance(it, Const) and isinstance(it.v, (list, tuple, dict, set, frozenset, str)) or isinstance(it, (list, tuple)):
                 seq = list(it.v) if isinstance(it, Const) else list(it)
                 cur_envs = [(env, list(self.events), list(self.conds))]
                 final: List[Outcome] = []
@@ -529,7 +537,13 @@ class Evaluator:
             key = self.eval(t.slice, env, scope)
             if isinstance(base, dict) and isinstance(key, (Const, EnumMember)):
                 base[key] = v
-        # attribute stores are ignored
+        elif isinstance(t, ast.Attribute):
+            base = self.eval(t.value, env, scope)
+            if isinstance(base, Obj) and base.instance:
+                if not base.open:
+                    raise Unsupported(f"attribute store on a constructed instance: {unparse(t, 40)}")
+                base.kwargs[t.attr] = v
+        # other attribute stores are ignored
 
     # ------------------------------------------------------------------ expressions
     def eval(self, e: Optional[ast.AST], env: Env, scope: Union[Func, Module]) -> Any:
@@ -712,6 +726,18 @@ class Evaluator:
         if isinstance(base, Obj):
             if attr in base.kwargs:
                 return base.kwargs[attr]
+            if base.instance:
+                m = self.prog.find_method(base.callee, attr)
+                if m is not None:
+                    return Closure(m, Env(), None if (m.is_static or m.is_classmethod) else base)
+                for cq in [base.callee] + self.prog.all_bases(base.callee):
+                    c = self.prog.classes.get(cq)
+                    for st in (c.node.body if c is not None else []):
+                        if isinstance(st, ast.Assign) and any(isinstance(x, ast.Name) and x.id == attr for x in st.targets):
+                            return self.eval(st.value, Env(), c.module)
+                        if isinstance(st, ast.AnnAssign) and isinstance(st.target, ast.Name) and st.target.id == attr and st.value is not None:
+                            return self.eval(st.value, Env(), c.module)
+                raise Unsupported(f"attribute {attr} of an instance of {base.callee} is not set by its constructor")
             return ("bound", base, attr)
         if isinstance(base, (list, dict, tuple)):
             return ("bound", base, attr)
@@ -885,6 +911,8 @@ class Evaluator:
             if r is not NOT_HANDLED:
                 return r
         if isinstance(fn, Closure):
+            if fn.self_obj is not None:
+                args = [fn.self_obj] + args
             outs = self.call_function(fn.func, args, kwargs, fn.env if fn.func.parent is not None else None)
             rets = [o for o in outs if o.kind == "return"]
             raises = [o for o in outs if o.kind == "raise"]
@@ -997,6 +1025,22 @@ class Evaluator:
                 return TOP
             ob = Obj(t.name, args, kwargs)
             return ob
+        c = self.prog.classes.get(t.name)
+        if c is not None and c.module.name in self.instance_modules and not any(
+                b.split(".")[-1] in ("Enum", "NamedTuple", "tuple", "Exception", "BaseException") for b in self.prog.all_bases(t.name)):
+            inst = Obj(t.name, args, {})
+            inst.instance, inst.open = True, True
+            init = self.prog.find_method(t.name, "__init__")
+            if init is not None:
+                outs = self.call_function(init, [inst] + args, kwargs)
+                if len(outs) != 1:
+                    raise Unsupported(f"constructor of {t.name} forks")
+                if outs[0].kind == "raise" and outs[0].exc is not None:
+                    raise outs[0].exc
+                self.events, self.conds = list(outs[0].events), list(outs[0].conds)
+            inst.open = False
+            self.events.append(inst)
+            return inst
         ob = Obj(t.name, args, kwargs)
         self.events.append(ob)
         return ob
